@@ -6,6 +6,20 @@ VERIF = os.path.dirname(os.path.dirname(os.path.abspath(__file__)))
 BASE = "cd /repo && /venv/bin/python -m pytest -ra -q -p no:cacheprovider --timeout=900 --continue-on-collection-errors"
 
 CLAIMED = {
+    "C02": dict(
+        text="Coq theorem over a model of the argument passing of a C wrapper (per C++ parameter: source C parameter and "
+             "conversion; value semantics of Direct / Deref / enum cast / std::string construction / capsule address): a wrapper "
+             "that passes the check delivers to the callee, for ALL argument values, exactly the caller's values in declaration "
+             "order, takes 'this' from the capsule passed as self, and copies back exactly the output strings. Translation "
+             "validation on every run: the argument flow of every C wrapper generated from /repo for 30+ generated libraries and "
+             "9 regression inputs is extracted from the wrapper sources (fail closed) and checked by vm_compute. Search / "
+             "validation: every generated library is built twice (direct C++ calls; calls through the generated C API only) under "
+             "AddressSanitizer with the same argument values; callee-side trace and caller-side results must be identical.",
+        note="Trusted: Coq kernel, the flow extractor tools/cflow.py, the library/driver generator tools/eqgen.py, g++/ASan. "
+             "Result conversions, overload/default/template reachability (C08) and ownership (C06) are not in this model; "
+             "wrappers with vector / struct / function-pointer parameters are outside the covered grammar (counted).",
+        technique="Coq proof of a checker's soundness + per-run translation validation of generated wrappers (vm_compute); differential runs for the search",
+        design="4/C02"),
     "C06": dict(
         text="Coq theorems over an executable model of the capsule protocol of the generated C API ({addr, idtor}, constructor "
              "and owner(caller)/library result wrappers, method wrappers, the class destructor wrapper, SHROUD_memory_destructor): "
